@@ -469,17 +469,30 @@ def c12_final_exp(rep, tier):
                 require(rep, g, "BLS12-381: (p^2+1)(p^6-1)((p^4-p^2+1)/r) = (p^12-1)/r (ground)", None, rp)
             # exp_by_p(x) = sum_i x_i * T[i] on symbolic coefficients; T[i] = (w^i)^p recomputed
             FQ12 = pm.FQ12
-            with core.Ctx() as ctx:
+            def run_ebp(ctx, pm=pm, FQ12=FQ12, p=p):
                 R = Ring(p)
                 ctx.ring = R
                 xs = [R.atom("c%d" % i) for i in range(12)]
-                got = cf(pm.exp_by_p(FQ12(xs)))
+                return R, xs, cf(pm.exp_by_p(FQ12(xs)))
+
+            def on_ebp(pth, pm=pm):
+                rep.paths += 1
+                if pth.kind != "ret":
+                    rep.fail("exp_by_p raised %r" % (pth.value,), rp)
+                    return
+                R, xs, got = pth.value
                 want = [R.const(0)] * 12
                 for i in range(12):
                     ti = [int(c) for c in pm.exptable[i].coeffs]
                     want = [w_ + xs[i] * t for w_, t in zip(want, ti)]
                 ok = all(R.prove_equal(R.lift(a), b) == "zero" for a, b in zip(got, want))
-                require(rep, ok, "exp_by_p(x) = sum_i x_i * exptable[i] for every x (12 symbolic coefficients)", None, rp)
+                require(rep, ok, "exp_by_p(x) = sum_i x_i * exptable[i] for every x (12 symbolic coefficients, every case the code distinguishes)", lits_summary(R), rp)
+            try:
+                core.explore(run_ebp, on_path=on_ebp, max_paths=120)
+            except core.PathLimit:
+                rep.unknown("exp_by_p distinguishes more than 120 coefficient cases: not all explored")
+            with core.Ctx() as ctx:
+                ctx.ring = Ring(p)
                 z0 = cf(pm.exp_by_p(FQ12([0] * 12)))
                 require(rep, all(int(c) == 0 for c in z0), "exp_by_p(0) = 0", None, rp)
             ok = True
@@ -498,3 +511,14 @@ def c12_final_exp(rep, tier):
         v = FV({("M", 0): 1})
         require(rep, pr.final_exponentiate(v).d == (v ** E).d, "%s reference final_exponentiate raises to (p^12-1)/r" % curve, None, rp)
     rep.note("x**n = n-fold product and (ab)^e = a^e b^e for the FQ12 classes are C08's obligations (pow_all_exponents, fqp_ring_*)")
+
+
+# ---------------------------------------------------------------------------
+# contracts of the curve modules that the pairing guards and the Miller loops rely on (owned by C07, registered here too:
+# a pairing refuses off-curve input only if is_on_curve is the curve equation, and is representative-independent only if twist is)
+from . import c07 as _c07
+for _c in ("bn128", "bls12_381"):
+    obligation("C05", "curve_module_contracts_%s" % _c,
+               bound="reference %s curve module: is_on_curve / is_inf / add / double / neg / eq on all affine coordinate pairs incl. zero coordinates (the C07 obligation, pairing guards depend on it)" % _c)(
+        (lambda c: (lambda rep, tier: _c07._check_reference(rep, c)))(_c))
+obligation("C05", "twist_embedding", bound="every point of E'(F_p^2) with symbolic coefficients, every zero / non-zero case the code distinguishes, all four modules (the C07 obligation; the Miller loops consume twist(Q))")(_c07.twist)
